@@ -946,6 +946,9 @@ class Interp:
                 return Agg(ent[1].name, [Cell(v) for v in inner])
             if ent[0] == 'variant':
                 return Agg(ent[1].name, [Cell(v) for v in inner], ent[2][3])
+        mi = re.search(r'<impl (\w+)>::(\w+)$', name)
+        if mi and ('%s::%s' % (mi.group(1), mi.group(2))) in CONST_MODELS:
+            return CONST_MODELS['%s::%s' % (mi.group(1), mi.group(2))](self)
         f = CONST_MODELS.get(sn) or CONST_MODELS.get('::'.join(sn.split('::')[-2:]))
         if f:
             return f(self)
